@@ -15,7 +15,7 @@ int shv_m_close(int); int shv_m_fcntl(int, int, int);
 int *shv_m_errno_location(void);
 
 struct Never _exit(int status) { shv_m__exit(status); __CPROVER_assume(0); }
-void exit(int status) { shv_m_exit(status); __CPROVER_assume(0); }
+struct Never exit(int status) { shv_m_exit(status); __CPROVER_assume(0); }
 void abort(void) { shv_m_abort(); __CPROVER_assume(0); }
 int raise(int sig) { return shv_m_raise(sig); }
 int sigaction(int sig, const void *act, void *old) { return shv_m_sigaction(sig, act, old); }
@@ -26,5 +26,7 @@ long send(int fd, const void *buf, size_t len, int flags) { return shv_m_send(fd
 long write(int fd, const void *buf, size_t len) { return shv_m_write(fd, buf, len); }
 long recv(int fd, void *buf, size_t len, int flags) { return shv_m_recv(fd, buf, len, flags); }
 int close(int fd) { return shv_m_close(fd); }
-int fcntl(int fd, int cmd, int arg) { return shv_m_fcntl(fd, cmd, arg); }
+/* Kani drops the variadic argument of foreign calls; units that need it rewrite `libc::fcntl(` to a
+ * non-variadic wrapper in the scratch copy (see props.py: rewrite). The plain symbol sees arg = 0. */
+int fcntl(int fd, int cmd, ...) { return shv_m_fcntl(fd, cmd, 0); }
 int *__errno_location(void) { return shv_m_errno_location(); }
